@@ -213,6 +213,8 @@ def build(spec):
     nprof = spec.get("nprof", 4)
     for f, fd in enumerate(spec["feeders"]):
         for i, b in enumerate(fb[f]):
+            if i in (fd.get("noload") or []):
+                continue        # a bus without load profile (junction / storage bus)
             ld = N(fd.get("load", ["1/20"] * len(fb[f]))[i])
             arr = np.array([ld] * nprof, dtype=object) if exact else np.ones(nprof) * ld
             ql = N(fd["qload"][i]) if fd.get("qload") else ld / 2          # reactive demand: given per bus, else half the active one
@@ -223,6 +225,8 @@ def build(spec):
         P.add_prod_data(pprod_data=(np.array([v] * nprof, dtype=object) if exact else np.ones(nprof) * v),
                         qprod_data=(np.array([w] * nprof, dtype=object) if exact else np.ones(nprof) * w))
     for b in MB:
+        if mg.get("storage_only") and b is MB[0] and mg.get("battery"):
+            continue            # a pure storage bus: the battery's bus has no load profile of its own
         ld = N("1/50")
         arr = np.array([ld] * nprof, dtype=object) if exact else np.ones(nprof) * ld
         b.add_load_data(pload_data=arr, cost_function=CostFunction(A=2, B=1))
